@@ -38,6 +38,8 @@ FUNCS_CXX = [
     "bool fbool{u}(bool arg)",                                    # types.yaml
     "long fover{u}(long arg)",                                    # tutorial overload pair
     "long fover{u}(long arg, int other)",
+    # a name beyond every identifier-length limit (Fortran: 63 characters)
+    "void fa_function_whose_name_is_much_longer_than_sixty_three_characters_in_every_language{u}(int arg)",
 ]
 FUNCS_C = [
     "void fnone{u}(void)",                                        # clibrary.yaml NoReturnNoArguments
@@ -48,6 +50,7 @@ FUNCS_C = [
     "void farrin{u}(const double *arg +rank(1), int n +implied(size(arg)))",
     "int * fptrdim{u}(int *len+intent(out)+hidden) +dimension(len)",
     "bool fbool{u}(bool arg)",
+    "void fa_function_whose_name_is_much_longer_than_sixty_three_characters_in_every_language{u}(int arg)",
 ]
 STRUCT_FUNCS = [                                                  # struct.yaml
     "int fstructval{u}({S} arg)",
